@@ -221,9 +221,11 @@ def map_nested_value(func: Callable, value: Any) -> Any:
 
         # Copy over any non-field items from the origin value __dict__  (such as __orig_class__,
         # which exists for subscripted generic objects) that haven't made it to the mapped value.
-        for key in set(value.__dict__.keys()) - set(mapped_value.__dict__.keys()):
-            # This syntax is frozen dataclass compatible.
-            mapped_value.__dict__[key] = value.__dict__[key]
+        # Dataclasses declared with slots=True have no __dict__ (and no non-field items to copy).
+        if hasattr(value, "__dict__"):
+            for key in set(value.__dict__.keys()) - set(mapped_value.__dict__.keys()):
+                # This syntax is frozen dataclass compatible.
+                mapped_value.__dict__[key] = value.__dict__[key]
         return mapped_value
 
     else:
